@@ -173,7 +173,8 @@ def c17_2(ctx, r):
     tests = [n for n in ast.walk(lp) if isinstance(n, ast.If)]
     dret = [n for n in iter_own(d.node) if isinstance(n, ast.Return) and isinstance(n.value, ast.Name)]
     DATA = dret[-1].value.id if dret else None
-    okt = len(tests) == 1 and DATA is not None and ctx.src(tests[0].test).replace(" ", "") == f"{DATA}[{ctx.src(lp.target)}]==GenericCommandParametersModel.__fields__[{ctx.src(lp.target)}].default"
+    _a, _b = f"{DATA}[{ctx.src(lp.target)}]", f"GenericCommandParametersModel.__fields__[{ctx.src(lp.target)}].default"
+    okt = len(tests) == 1 and DATA is not None and ctx.src(tests[0].test).replace(" ", "") in (f"{_a}=={_b}", f"{_b}=={_a}")
     r.check(okt, "a field is dropped only when its value equals the declared default", key_of(d, "drop condition"), d.loc(lp), f"drop condition is `{ctx.src(tests[0].test) if tests else None}`", "yields the same ... flags")
     pops = [n for n in iter_own(d.node) if isinstance(n, ast.Call) and DATA and ctx.src(n.func) == f"{DATA}.pop"]
     r.check(all(any(l is lp for l in ctx.enclosing(d, n, (ast.For,))) for n in pops) and len(pops) == 1, "nothing else is removed from the dict", key_of(d, "pops"), d.loc(), f"{len(pops)} pops")
